@@ -164,6 +164,7 @@ type Ctx struct {
 	property        string // selected property tag ("" = all)
 	unknownCalls    map[string]int
 	trustedUsed     map[string]bool
+	usedContracts   map[string]bool // keys of concrete (verifiable) functions whose contract was applied at a call site
 	inlined         map[string]bool
 	ifaceTypes      map[string]types.Type
 	ordinals        map[string]int
